@@ -129,6 +129,9 @@ func (e *env) genKey() string {
 			b[i] = byte(r.Intn(256))
 		}
 		return string(b)
+	case 7:
+		// URL-shaped keys with percent-escapes and reserved characters: a key is bytes, never decoded
+		return []string{"http://h.test/a%2Fb?q=x%20y#1", "http://h.test/a/b?q=x y#1", "http://h.test/a%252Fb#0", "100%", "%41", "A", "%zz%", "a+b", "a b", "a%2Bb"}[r.Intn(10)]
 	default:
 		return "http://h.test/" + strings.Repeat("p", r.Intn(300)) + "#" + strconv.Itoa(r.Intn(3))
 	}
@@ -801,21 +804,31 @@ func (e *env) runConc(id string, enc bool, dur time.Duration) {
 	var wg sync.WaitGroup
 	stop := make(chan struct{})
 	size := []int{100, 4096, 65536}[e.r.Intn(3)]
+	// values of very different lengths replace each other: a reader that sizes its buffer from one
+	// version and reads another shows as a value of the wrong length
+	lenOf := func(tok int) int { return []int{size, size/2 + 7, size*3 + 200}[tok%3] }
 	val := func(tok int) []byte {
-		b := make([]byte, size)
+		b := make([]byte, lenOf(tok))
 		s := fmt.Sprintf("<%08d>", tok)
-		for i := 0; i < size; i += len(s) {
+		for i := 0; i < len(b); i += len(s) {
 			copy(b[i:], s)
 		}
 		return b
 	}
 	tokOf := func(b []byte) string {
-		if len(b) != size {
+		if len(b) < 10 {
 			return "torn-len" + strconv.Itoa(len(b))
 		}
 		first := string(b[:10])
-		for i := 0; i+10 <= len(b); i += 10 {
-			if string(b[i:i+10]) != first {
+		t, err := strconv.Atoi(strings.Trim(first, "<>"))
+		if err != nil || first[0] != '<' || first[9] != '>' {
+			return "torn-mixed"
+		}
+		if len(b) != lenOf(t) {
+			return "torn-len" + strconv.Itoa(len(b))
+		}
+		for i := 0; i < len(b); i += 10 {
+			if string(b[i:min(i+10, len(b))]) != first[:min(10, len(b)-i)] {
 				return "torn-mixed"
 			}
 		}
